@@ -266,6 +266,24 @@ def r2_sentinels(idx, r):
         r.require(hit[1] == sv, f"sentinel:{t}", reader, node=hit[2].test,
                   msg=f"None is written as `{sv}` for {t} ({kind}) but data of that kind is scanned for `{hit[1]}` (first matching branch: np.{hit[0]})")
 
+    # writer side: the sentinel is looked up under the element's EXACT type (type(x)); a lookup through base classes
+    # (bool -> int via the MRO) stores a value under another numeric kind instead of rejecting it
+    writer = idx.func(LAYOUT + ".replaceNonesWithNonsense")
+    if writer is None:
+        raise AnchorMissing("layout.replaceNonesWithNonsense")
+    lookups = [n for n in walk_local(writer.node) if isinstance(n, ast.Subscript) and isinstance(n.value, ast.Name) and n.value.id == "NONE_MAP" and isinstance(n.ctx, ast.Load)]
+    if not lookups:
+        raise AnchorMissing("replaceNonesWithNonsense: NONE_MAP[...] lookup")
+    for li, lk in enumerate(lookups):
+        if not isinstance(lk.slice, ast.Name):
+            r.undecided(f"writer-lookup:{norm(lk)[:40]}", writer, "lookup key is not a local name", node=lk)
+            continue
+        defs = [st.value for st in walk_local(writer.node) if isinstance(st, ast.Assign) and any(isinstance(t, ast.Name) and t.id == lk.slice.id for t in st.targets)]
+        exact = [d for d in defs if (isinstance(d, ast.Call) and dotted(d.func) == "type") or isinstance(d, ast.Constant) or (isinstance(d, ast.Name) and d.id in ("float", "int", "str"))]
+        r.require(len(exact) == len(defs), f"writer-lookup:{norm(lk)[:40]}#{li}", writer, node=lk,
+                  msg=f"`{lk.slice.id}` is not always the element's exact type (it is also bound to `{norm([d for d in defs if d not in exact][0])[:60]}`): values of a subclass "
+                      "(bool under int) are then stored under the parent's kind and read back as another kind instead of being rejected" if len(exact) != len(defs) else "")
+
 
 # ------------------------------------------------------------------------------------------------
 def _if_chains(fnode):
@@ -608,6 +626,34 @@ def r7_coercion(idx, r):
                       msg=(bad or "") + f": `{norm(stmt)[:80]}` converts to a type chosen from part of the data")
 
 
+def r8_schema_from_all(idx, r):
+    """The column list of a dict-valued parameter is stored once (attrs['keys']) and every object's dict is laid out
+    against it: it must be computed from EVERY object's dict. A definition that looks at one representative element
+    (`data[0]`) silently drops the entries of objects whose keys differ."""
+    f = idx.func(f"{DB}.packSpecialData")
+    if f is None:
+        raise AnchorMissing("packSpecialData")
+    # the collection is the first parameter or a local copy/alias of it (`data = arrayData` ...)
+    data_names = {f.params()[0]}
+    for st in walk_local(f.node):
+        if isinstance(st, ast.Assign) and len(st.targets) == 1 and isinstance(st.targets[0], ast.Name) and any(isinstance(n, ast.Name) and n.id in data_names for n in ast.walk(st.value)):
+            if isinstance(st.value, ast.Name) or (isinstance(st.value, ast.Call) and len(st.value.args) >= 1 and isinstance(st.value.args[0], ast.Name) and st.value.args[0].id in data_names):
+                data_names.add(st.targets[0].id)
+    stored = [st for st in iter_stores(f.node) if st.kind == "subscript" and norm(st.node.value if hasattr(st.node, "value") else st.node).startswith("attrs") and "keys" in norm(st.stmt.targets[0])]
+    if not stored:
+        raise AnchorMissing("packSpecialData: attrs['keys'] store")
+    names = {n.id for st in stored for n in ast.walk(st.value) if isinstance(n, ast.Name)} - {"np", "numpy"}
+    defs = [st for st in walk_local(f.node) if isinstance(st, ast.Assign) and len(st.targets) == 1 and isinstance(st.targets[0], ast.Name) and st.targets[0].id in names]
+    if not defs:
+        raise AnalysisError("packSpecialData: no definition of the key list found")
+    for d in defs:
+        over_all = any(isinstance(g, ast.comprehension) and isinstance(g.iter, ast.Name) and g.iter.id in data_names for g in ast.walk(d.value))
+        one = [n for n in ast.walk(d.value) if isinstance(n, ast.Subscript) and isinstance(n.value, ast.Name) and n.value.id in data_names and isinstance(n.slice, (ast.Constant, ast.UnaryOp))]
+        r.require(over_all and not one, f"keys:{norm(d)[:60]}", f, node=d,
+                  msg=f"`{norm(d)[:70]}` takes the key list from {'one element (' + norm(one[0]) + ')' if one else 'something other than all elements'}: "
+                      "entries under keys that this element lacks are dropped on write and read back missing")
+
+
 def run(idx, chk):
     chk.explanation = (
         "C05: pack/unpack are sibling implementations; their attrs key sets, strategy decision trees, None-sentinel tables, "
@@ -629,3 +675,5 @@ def run(idx, chk):
                  lambda r: r5_serializer(idx, r), floor=9, necessary="custom-serialised parameters decode only with the serializer that wrote them")
     chk.run_rule("R05.7", "a value-changing cast on the write path is compared with its source before the data is returned for storage",
                  lambda r: r7_coercion(idx, r), floor=4, necessary="'never stored as something that reads back different': a cast to a type chosen from one element truncates the others")
+    chk.run_rule("R05.8", "the stored key list of dict-valued parameters is computed from every object's dict", lambda r: r8_schema_from_all(idx, r), floor=1,
+                 necessary="'dictionaries of numbers ... returned with the same values': a key list taken from one object drops the others' entries")
